@@ -20,16 +20,20 @@
 
     Exchange formats (mirrored by harness/c01.go, c03.go, c02.go):
       table case  = (kind columns pknames rows runSize arrival goparams)
-         kind      0 = ingest.IngestTable + object read-back; 1 = wrgl commit + wrgl export
+         kind      0 = ingest.IngestTable + object read-back; 1 = wrgl commit + wrgl export;
+                   2 = Sorter.AddRow for every row + Inserter.IngestTableFromSorter (no CSV)
          columns   node of cells (header), pknames node of cells, rows node of rows
          runSize   leaf; arrival node of leaves: scheduling keys, block i arrives in the
                    order of (arrival[i mod len], i)  (model only; Go schedules for real)
-         goparams  (workers delimiter)  (Go only)
+         goparams  (workers delimiter deps)  (Go only; deps = optional forced worker schedule)
       C01 observation = (status columns pk rowcount (block ...) export)
          status 0 ok | 1 error (unknown key column / cell over the limit) | 2 panic, rest empty
-         block = node of crows; export = () for kind 0, else node of crows (header first)
+         block = node of crows; export = node of crows (header first) for kind 1, else ()
          crow = (0 cell ...) the row, or (1 keycell ...) when its key is ambiguous: some single
          run holds two different rows with that key (survivor depends on the unstable sort)
+      C03 also has the case (3 nrows workers): a table of nrows rows with unique keys generated
+         by the harness; observation (status rows nblocks nindices allreadable), computed by the
+         model arithmetically (nblocks = nindices = ceil(nrows/255)), see run_C03_large
       C03 observation = (status rowcount (block ...) tblidx (blkidx ...) nidx diag)
          tblidx node of keys; blkidx = node of (key crow) per position; nidx = number of
          block indices; diag = 0 (no issue) or the issue code 1..6
@@ -288,8 +292,8 @@ Definition run_C01 (c : tree) : tree :=
       Node [Leaf 0; t_row (t_columns T); t_list t_nat (t_pk T); Leaf (t_rowscount T);
             t_blocks_tree cr T;
             match d_nat (d_nth 0 c) with
-            | O => Node []
-            | _ => Node (Node (Leaf 0 :: map t_bytes (t_columns T)) :: map cr (rows_of T))
+            | 1%nat => Node (Node (Leaf 0 :: map t_bytes (t_columns T)) :: map cr (rows_of T))
+            | _ => Node []
             end]
   | IFuel => Leaf 98
   | IPanic => Node [Leaf 2; Node []; Node []; Leaf 0; Node []; Node []]
@@ -303,7 +307,16 @@ Definition issue_code (i : option issue) : N :=
   | Some IssRowsCount => 4 | Some IssIdxCount => 5 | Some IssIdxRows => 6
   end.
 
-Definition run_C03 (c : tree) : tree :=
+(** kind 3 = (3 nrows workers): a table of nrows rows with unique keys that the harness
+    generates itself; only counts are observed after objects.GetTable:
+    (status rows nblocks nindices allreadable).  The model does not process the rows: by
+    C03_block_count a sound table of n rows has ceil(n/255) blocks and as many indices. *)
+Definition run_C03_large (c : tree) : tree :=
+  let n := d_N (d_nth 1 c) in
+  let nb := (n + 254) / 255 in
+  Node [Leaf 0; Leaf n; Leaf nb; Leaf nb; Leaf 1].
+
+Definition run_C03_table (c : tree) : tree :=
   let '(res, amb) := run_ingest c in
   match res with
   | IOk T tidx =>
@@ -316,6 +329,12 @@ Definition run_C03 (c : tree) : tree :=
   | IFuel => Leaf 98
   | IPanic => Node [Leaf 2; Leaf 0; Node []; Node []; Node []; Leaf 0; Leaf 0]
   | _ => Node [Leaf 1; Leaf 0; Node []; Node []; Node []; Leaf 0; Leaf 0]
+  end.
+
+Definition run_C03 (c : tree) : tree :=
+  match d_nat (d_nth 0 c) with
+  | 3%nat => run_C03_large c
+  | _ => run_C03_table c
   end.
 
 (** structural equality of the identity-relevant part of tables: columns, pk, blocks *)
